@@ -37,7 +37,7 @@ def san_site(stderr):
     return kind, fn
 
 
-def run_batch(cmd, cases, timeout=300, env=None, per_case_reset=None, max_restarts=8):
+def run_batch(cmd, cases, timeout=300, env=None, per_case_reset=None, max_restarts=6, stall=25):
     """Run all ops of `cases` through one process; on a crash/timeout, attribute it to the case
     whose output is incomplete, mark that case, and continue with the following cases in a fresh
     process.  Sets case.<attr> lists via the returned dict {case_index: lines}."""
@@ -53,10 +53,10 @@ def run_batch(cmd, cases, timeout=300, env=None, per_case_reset=None, max_restar
                 lines.append(per_case_reset)
             lines.extend(c.ops)
         # a hang must not cost the whole budget: scale the limit with the amount of work
-        tmo = min(timeout, 20 + 0.02 * len(lines))
-        rc, o, e = C.run_lines(cmd, lines, timeout=tmo, env=env)
+        tmo = timeout
+        rc, o, e = C.run_lines_stall(cmd, lines, timeout=tmo, stall=stall, env=env)
         if rc == -999:
-            e += "\nHANG: no completion within %.0f s (deadlock or livelock)" % tmo
+            e += "\nHANG: no completion (no output for %d s, or %.0f s in total): deadlock or livelock" % (stall, tmo)
         pos = 0
         done = start
         for i in range(start, len(cases)):
